@@ -160,7 +160,9 @@ def run(
         res = TLCResult(module=module, cfg=cfg, rc=p.returncode, wall_s=time.time() - t0, stdout=p.stdout + p.stderr, cmd=" ".join(cmd))
         parse_stdout(res.stdout, res)
         if p.returncode != 0 and res.violated is None:
-            raise TLCError(f"TLC failed rc={p.returncode} on {module}/{cfg}:\n{res.stdout[-4000:]}")
+            i = res.stdout.find("Error:")
+            msg = res.stdout[i : i + 2500] if i >= 0 else res.stdout[-3000:]
+            raise TLCError(f"TLC failed rc={p.returncode} on {module}/{cfg}:\n{msg}")
         if res.violated and not allow_violation:
             raise TLCError(f"TLC reports {res.violated} on {module}/{cfg}:\n{res.counterexample}")
         return res
